@@ -98,6 +98,10 @@ func cmdFunc(args []string) {
 		reportFn(fc, work, *timeout, *verbose)
 	}
 	if *lemmas {
+		for _, r := range e.Spec.Refines {
+			fc := e.VerifyRefinement(r)
+			reportFn(fc, work, *timeout, *verbose)
+		}
 		for _, l := range e.Spec.Lemmas {
 			if l.Axiom {
 				continue
